@@ -76,9 +76,11 @@ class CSlli(RiscvcInstruction):
     syntax = Syntax(["c", ".", "slli", " ", rd, ",", " ", rs, ",", " ", imm])
 
     def encode(self):
+        if self.imm not in range(0, 32):
+            raise ValueError(f"c.slli shift amount {self.imm} out of range")
         tokens = self.get_tokens()
         tokens[0][0:2] = 0b10
-        tokens[0][2:7] = self.imm & 0xF
+        tokens[0][2:7] = self.imm
         tokens[0][7:12] = self.rd.num
         tokens[0][13:16] = 0b0000
         return tokens[0].encode()
